@@ -94,10 +94,20 @@ struct ScriptState {
     /// bytes delivered by the reader so far / accepted by the writer
     consumed: usize,
     accepted: Vec<u8>,
+    /// answers given before the explorer is consulted (fixed prefixes such as long runs of EINTR)
+    forced: std::collections::VecDeque<Ans>,
 }
 
 impl ScriptState {
     fn decide(&mut self, buf_len: usize) -> Ans {
+        if let Some(a) = self.forced.pop_front() {
+            let a = match a {
+                Ans::Short(k) if k >= buf_len => Ans::Full,
+                a => a,
+            };
+            self.calls.push((buf_len, a));
+            return a;
+        }
         let mut alts = vec![Ans::Full];
         if self.calls.len() < self.max_calls {
             if buf_len > 1 {
@@ -493,6 +503,20 @@ fn execute(case: &Case, ex: &mut Explorer, max_calls: usize, all_shorts: bool) -
     execute_seq(std::slice::from_ref(case), ex, max_calls, all_shorts)
 }
 
+thread_local! {
+    static FORCED: RefCell<Vec<Ans>> = const { RefCell::new(Vec::new()) };
+}
+
+/// One transfer whose stream first gives the answers of `prefix`, then always the default.
+fn execute_forced(case: &Case, prefix: Vec<Ans>) -> Exec {
+    FORCED.with(|f| *f.borrow_mut() = prefix);
+    let mut ex = Explorer::for_replay(&[]);
+    ex.begin();
+    let e = execute_seq(std::slice::from_ref(case), &mut ex, 0, false);
+    FORCED.with(|f| f.borrow_mut().clear());
+    e
+}
+
 /// Runs the transfers of `cases` one after the other on the same target and the same scripted
 /// stream (the stream's script and its byte position carry over); every transfer is judged.
 fn execute_seq(cases: &[Case], ex: &mut Explorer, max_calls: usize, all_shorts: bool) -> Exec {
@@ -505,6 +529,7 @@ fn execute_seq(cases: &[Case], ex: &mut Explorer, max_calls: usize, all_shorts: 
         all_shorts,
         consumed: 0,
         accepted: Vec::new(),
+        forced: FORCED.with(|f| f.borrow().iter().cloned().collect()),
     }));
     let mut last: Option<Exec> = None;
     for case in cases {
@@ -722,7 +747,7 @@ fn cases(tier: Tier) -> Vec<Case> {
 
 pub fn run(tier: Tier, replay: Option<String>) -> i32 {
     let ctx = crate::new_ctx("C14", tier, "fault_enumeration", &replay);
-    ctx.set_rule("choice-tree DFS: every call the transfer makes to the underlying stream is a choice among full / short by k / zero / EINTR (<=3 in a row) / hard error of four kinds (other, WouldBlock, BrokenPipe, TimedOut); scripts of up to max_calls scripted calls, at most `bound` non-default answers per script (all bounds 0..=B enumerated completely); streams: a scripted ReadVolatile/WriteVolatile and the real File adapter over interposed read(2)/write(2); targets: slice, region, guest memory with two adjacent regions, a hole and a third region behind it (ranges may end in the hole or behind it); a case is non-trivial when its script contains at least one non-default answer; distinct = distinct (case, script) pairs, by construction of the DFS");
+    ctx.set_rule("choice-tree DFS: every call the transfer makes to the underlying stream is a choice among full / short by k / zero / EINTR (<=3 in a row) / hard error of four kinds (other, WouldBlock, BrokenPipe, TimedOut); scripts of up to max_calls scripted calls, at most `bound` non-default answers per script (all bounds 0..=B enumerated completely); streams: a scripted ReadVolatile/WriteVolatile and the real File adapter over interposed read(2)/write(2); targets: slice, region, guest memory with two adjacent regions, a hole and a third region behind it (ranges may end in the hole or behind it); a case is non-trivial when its script contains at least one non-default answer; distinct = distinct (case, script) pairs, by construction of the DFS; plus, for every case, runs of 4, 33, 64 and 1000 EINTR answers in a row (alone and after a one-byte transfer) followed by default answers");
     ctx.assume("the scripted stream and the interposed syscalls deliver exactly what the script says");
     if let Err(e) = crate::interpose::selftest() {
         ctx.machinery(&format!("interposition self-test failed: {}", e));
@@ -813,6 +838,26 @@ pub fn run(tier: Tier, replay: Option<String>) -> i32 {
         }
     }
     ctx.extra("two_transfer_history_scripts", json!(pair_scripts));
+    // long runs of EINTR (far beyond the three in a row of the choice tree), alone and after a
+    // short transfer: an interruption is retried however often it happens
+    let mut long_runs = 0u64;
+    for case in &all {
+        for n in [4usize, 33, 64, 1000] {
+            for lead in [None, Some(Ans::Short(1))] {
+                let mut prefix: Vec<Ans> = lead.into_iter().collect();
+                prefix.extend(std::iter::repeat(Ans::Eintr).take(n));
+                long_runs += 1;
+                ctx.case(true);
+                let e = execute_forced(case, prefix);
+                if let Some((k, d)) = e.violation {
+                    let key = format!("C14/{:?}/{:?}/{}/{} (after {} interruptions in a row)", case.target, case.stream, case.form.name(), k, if n > 4 { "many" } else { "four" });
+                    let rp = if ctx.has_failed(&key) { Value::Null } else { json!({"case": case.to_json(), "eintr_run": n, "short_first": lead.is_some(), "result": format!("{:?}", e.result)}) };
+                    ctx.fail(&key, &format!("{} x EINTR{}: {}", n, if lead.is_some() { " after a short transfer of 1 byte" } else { "" }, d), rp);
+                }
+            }
+        }
+    }
+    ctx.extra("long_eintr_run_scripts", json!(long_runs));
     ctx.set_exhaustive(true);
     ctx.extra("cases", json!(all.len()));
     ctx.extra("scripts_executed_including_re-exploration_per_bound", json!(per_bound));
